@@ -10,7 +10,7 @@ import (
 )
 
 func init() {
-	register("C19", "capability dialogues driven through the real internal handlers: wanted subsets of {a,b,c} x advertised subsets of {a,b,c,sasl,d} x SASL in {none, PLAIN, EXTERNAL(empty / non-empty identity)} x server reply in {ACK all, ACK part, ACK with a later -cap, NAK} x outcome in {903,904,908} - enumerated exhaustively - plus random sets of 40-300 capabilities that force the REQ to be split; every reply and SupportsCapability/HasCapability are compared with the model and judged by Spec.Caps; non-trivial = the intersection is non-empty; distinct by dialogue", c19)
+	register("C19", "capability dialogues driven through the real internal handlers: wanted subsets of {a,c,t,userhost-in-names} x advertised subsets of {a,t,d,sasl,userhost-in-names} (names sorting before and after sasl; ACKs in request order and reversed) x SASL in {none, PLAIN, EXTERNAL(empty / non-empty identity)} x server reply in {ACK all, ACK part, ACK with a later -cap, NAK} x outcome in {903,904,908} - enumerated exhaustively - plus random sets of 40-300 capabilities that force the REQ to be split; every reply and SupportsCapability/HasCapability are compared with the model and judged by Spec.Caps; non-trivial = the intersection is non-empty; distinct by dialogue", c19)
 }
 
 func subsets(xs []string) [][]string {
@@ -65,7 +65,7 @@ func capDialogue(wanted, adv []string, saslKind int, reply int, outcome string) 
 	case 4:
 		p.sasl, p.saslClient = extSasl("ident")
 	}
-	univ := []string{"a", "b", "c", "d", "sasl"}
+	univ := []string{"a", "b", "c", "d", "sasl", "t", "userhost-in-names"}
 	if len(adv) > 8 {
 		univ = dedup(append(univ, adv...))
 	}
@@ -95,8 +95,10 @@ func capDialogue(wanted, adv []string, saslKind int, reply int, outcome string) 
 		d.cs.Tag = fmt.Sprintf("req=%d/sasl=%d/reply=%d", min(len(requested), 4), saslKind, reply)
 		var acked []string
 		switch reply {
-		case 0: // ACK everything requested
-			acked = requested
+		case 0: // ACK everything requested (servers may answer in any order: reverse it)
+			for i := len(requested) - 1; i >= 0; i-- {
+				acked = append(acked, requested[i])
+			}
 		case 1: // ACK only the first
 			acked = requested[:1]
 		case 2: // ACK everything, then a later ACK disables the first again
@@ -124,7 +126,7 @@ func capDialogue(wanted, adv []string, saslKind int, reply int, outcome string) 
 				d.raw(":irc.test CAP me ACK :-"+requested[0], fmt.Sprintf("spec19ack %s %s {out}", "none", drv.L([]string{"-" + requested[0]})))
 				allAcks = append(allAcks, "-"+requested[0])
 			}
-			for _, c := range univ[:5] {
+			for _, c := range univ[:7] {
 				held := "0"
 				if d.r.conn.HasCapability(c) {
 					held = "1"
@@ -142,8 +144,8 @@ func capDialogue(wanted, adv []string, saslKind int, reply int, outcome string) 
 
 func c19(c *Ctx) {
 	var cases []Case
-	for _, w := range subsets([]string{"a", "b", "c"}) {
-		for _, a := range subsets([]string{"a", "b", "d", "sasl"}) {
+	for _, w := range subsets([]string{"a", "c", "t", "userhost-in-names"}) {
+		for _, a := range subsets([]string{"a", "t", "d", "sasl", "userhost-in-names"}) {
 			for sk := 0; sk <= 4; sk++ {
 				for reply := 0; reply <= 3; reply++ {
 					outcomes := []string{"903"}
